@@ -197,3 +197,13 @@ M("filecache-iterator-no-own-reference", S, "    def _iterfromfilecache(self, hd
 M("fromdicts-gen-del-no-unlink", "io/json.py", "            self._filecache.close()\n            unlink(self._filecache.name)", "            self._filecache.close()", ["C18"])
 M("sort-failure-leaks-chunks", S, "            chunkfiles = []\n\n            while rows:", "            chunkfiles = self.__dict__.setdefault('_leak', [])\n\n            while rows:", ["C18"])
 # (keeping the chunk-file wrappers on the view although cache=False is equivalent for C18: the files die with the view)
+
+CV = "transform/conversions.py"
+MP = "transform/maps.py"
+# ---- C19 ----------------------------------------------------------------------------------
+M("convert-inline-after-true", CV, "                if failonerror == 'inline':\n                    return e\n                elif failonerror:\n                    raise e", "                if failonerror:\n                    raise e\n                elif failonerror == 'inline':\n                    return e", ["C19"])
+M("convert-config-read-at-iteration", CV, "        return iterfieldconvert(self.source, self.converters, self.failonerror,", "        return iterfieldconvert(self.source, self.converters, config.failonerror,", ["C19"])
+M("rowmap-inline-drops-row", MP, "            if failonerror == 'inline':\n                yield tuple([e])\n            elif failonerror:\n                raise e\n\n\ndef rowmapmany", "            if failonerror == 'inline':\n                pass\n            elif failonerror:\n                raise e\n\n\ndef rowmapmany", ["C19"])
+M("rowmapmany-buffers-rows", MP, "            for outrow in rowgenerator(row):\n                yield tuple(outrow)", "            for outrow in list(rowgenerator(row)):\n                yield tuple(outrow)", ["C19"])
+M("fieldmap-errorvalue-none", MP, "                else:\n                    val = errorvalue\n            outrow.append(val)", "                else:\n                    val = None\n            outrow.append(val)", ["C19"])
+M("fieldmap-argument-ignored-when-config-set", MP, "        self.failonerror = (config.failonerror if failonerror is None\n                                else failonerror)\n        self.errorvalue = errorvalue", "        self.failonerror = (config.failonerror if not failonerror\n                                else failonerror)\n        self.errorvalue = errorvalue", ["C19"])
